@@ -101,7 +101,9 @@ def nbuild (prim : PT → Str → PR) : Nat → NS → Ents → Option (Option N
     | some _ => none                                -- "array items must be set with indexes"
     | none => match idxAll (heads ents) with
       | none => none
-      | some idxs => (itemsFrom (fun i => nbuild prim f items (under (showNat i) ents)) (maxIdx idxs + 1) 0).map (fun xs => some (.a xs))
+      | some idxs =>
+        if maxIdx idxs ≥ idxs.length + maxArrayIndexGap then none   -- index too far beyond the elements given (ab8c63f)
+        else (itemsFrom (fun i => nbuild prim f items (under (showNat i) ents)) (maxIdx idxs + 1) 0).map (fun xs => some (.a xs))
   | f + 1, .obj props _ addl, ents =>
     if ents.isEmpty then some none else
     match scalarAt ents with
@@ -136,9 +138,10 @@ def nget (kvs : List (Str × NV)) : List Str → Bool
     | some _ => true
 
 def nFound (props : List (Str × NS)) (dp : List (List Str × List Str)) (val : List (Str × NV)) : Bool :=
-  !props.isEmpty && dp.any (fun kv => (match kv.1 with
+  (props.isEmpty && !val.isEmpty) ||
+  (!props.isEmpty && dp.any (fun kv => (match kv.1 with
     | [p] => hasKey p props
-    | _ => false) || nget val kv.1)
+    | _ => false) || nget val kv.1))
 
 structure NOut where
   val : Option (List (Str × NV))     -- none = nil map
@@ -146,14 +149,14 @@ structure NOut where
   err : Option DErr
 
 /-- urlValuesDecoder.DecodeObject, style deepObject, for a nested object schema -/
-def queryNest (prim : PT → Str → PR) (presenceAware : Bool) (name : Str) (r : Req)
+def queryNest (prim : PT → Str → PR) (name : Str) (r : Req)
     (props : List (Str × NS)) (required : List Str) (addl : Option NS) : NOut :=
   match deepProps name r.query with
   | [] => ⟨none, false, none⟩
   | dp =>
     if deepClash dp then ⟨none, false, some .parse⟩ else
     match nbuild prim ((NS.obj props required addl).depth + 1) (.obj props required addl) (dp.map (fun kv => (kv.1, kv.2.headD []))) with
-    | some (some (.o kvs)) => ⟨some kvs, objFound presenceAware props kvs (nFound props dp kvs), none⟩
+    | some (some (.o kvs)) => ⟨some kvs, nFound props dp kvs, none⟩
     | _ => ⟨none, false, some .parse⟩
 
 /-! ### validation of the nested value -/
@@ -199,7 +202,7 @@ structure NParam where
 /-- ValidateParameter for a deepObject query parameter with a nested object schema -/
 def validateNest (fl : Flavour) (hit : EV → PV → Bool) (p : NParam) (r : Req) : Verdict :=
   if r.query.isEmpty then (if p.required then .missing else .accept) else
-  let o := queryNest fl.prim fl.presenceAware p.name (fl.deepReq p.name r) p.props p.req p.addl
+  let o := queryNest fl.prim p.name (strictReq p.name r) p.props p.req p.addl
   match o.err with
   | some e => errVerdict e
   | none =>
